@@ -56,13 +56,14 @@ class Mod:
                 q2 = q + [ch.name]
                 name = ".".join(q2)
                 self.qual[id(ch)] = ".".join(q)
-                # first definition wins for lookup; later duplicates get a suffix
-                key = name
-                n = 2
-                while key in self.defs:
-                    key = f"{name}#{n}"
-                    n += 1
-                self.defs[key] = ch
+                # the last definition wins for lookup (typing overload stubs come
+                # first); earlier duplicates are kept under a suffixed key
+                if name in self.defs:
+                    n = 2
+                    while f"{name}#{n}" in self.defs:
+                        n += 1
+                    self.defs[f"{name}#{n}"] = self.defs[name]
+                self.defs[name] = ch
                 self._index(ch, q2)
             else:
                 self.qual[id(ch)] = ".".join(q)
